@@ -1,9 +1,9 @@
-\* quick, exhaustive: 2 connections x 2 shutdown callers x 1 hook (any speed), standard transport
+\* quick, exhaustive: 1 connection x 2 callers x hooks {any speed, beyond the deadline}
 CONSTANTS
-  Conns = {c1, c2}
+  Conns = {c1}
   Callers = {k1, k2}
-  Hooks = {h1}
-  BeyondHooks = {}
+  Hooks = {h1, h2}
+  BeyondHooks = {h2}
   MaxReq = 1
   Transport = "standard"
   ServerRun = TRUE
